@@ -230,6 +230,11 @@ EXTRAS = [
     ("det4", HEAD % "" + '<g transform="scale(2,2)" stroke="black" stroke-width="3"><rect id="L" width="3" height="4"/></g></svg>'),
     ("det-6", HEAD % "" + '<g transform="scale(-2,3)" stroke="black"><rect id="L" width="3" height="4" stroke-width="2"/></g></svg>'),
     ("det-quarter", HEAD % "" + '<g transform="matrix(0.5,0,0,0.5,7,7)"><rect id="L" width="3" height="4" stroke="red" stroke-width="8" transform="rotate(30)"/></g></svg>'),
+    ("many-selectors", HEAD % "" + '<style>rect.hot{fill:#ff0000} .f0{stroke-width:20} .f1{stroke-width:21} .f2{stroke-width:22} .f3{stroke-width:23} .f4{stroke-width:24} .f5{stroke-width:25} .f6{stroke-width:26} .f7{stroke-width:27} .f8{stroke-width:28} .f9{stroke-width:29} .f10{stroke-width:30} .f11{stroke-width:31} .f12{stroke-width:32} .f13{stroke-width:33} .hot{fill:#0000ff} *{stroke:#010101} circle{stroke:#020202}</style><rect id="L" class="hot" width="3" height="4"/><circle id="C" class="hot" r="2"/></svg>'),
+    ("many-selectors-late-star", HEAD % "" + '<style>rect{fill:#ff0000} #C{fill:#00ff00} .f0{stroke-width:20} .f1{stroke-width:21} .f2{stroke-width:22} .f3{stroke-width:23} .f4{stroke-width:24} .f5{stroke-width:25} .f6{stroke-width:26} .f7{stroke-width:27} .f8{stroke-width:28} .f9{stroke-width:29} .f10{stroke-width:30} .f11{stroke-width:31} .f12{stroke-width:32} .f13{stroke-width:33} *{fill:#0000ff} .hot{stroke:#030303}</style><rect id="L" class="hot" width="3" height="4"/><circle id="C" class="hot" r="2"/><ellipse id="E" rx="2" ry="1"/></svg>'),
+    ("comment-multiline", HEAD % "" + '<style>rect{fill:#ff0000} /* a\n b\n c */ circle{fill:#0000ff} .k{ /* x\n y */ stroke:#00ff00 }</style><rect id="L" class="k" width="3" height="4"/><circle id="C" class="k" r="2"/></svg>'),
+    ("comment-star-inside", HEAD % "" + '<style>/* a * b / c **/ rect{fill:#ff0000}/**/circle{fill:#0000ff}</style><rect id="L" width="3" height="4"/><circle id="C" r="2"/></svg>'),
+    ("opacity-other-paint-none", HEAD % "" + '<rect id="L" width="3" height="4" fill="#ff0000" fill-opacity="0.5" stroke-opacity="0.5"/><rect id="M" width="3" height="4" fill="none" fill-opacity="0.25" stroke="#0000ff" stroke-opacity="0.5"/><rect id="N" width="3" height="4" fill="#00ff00" fill-opacity="0.5" stroke="none" stroke-opacity="inherit"/></svg>'),
     ("det-tiny", HEAD % "" + '<g transform="scale(0.00002)" stroke="black" stroke-width="50000"><rect id="L" width="30000" height="40000"/></g></svg>'),
     ("det-huge", HEAD % "" + '<g transform="scale(40000)" stroke="black" stroke-width="0.00005"><rect id="L" width="0.0003" height="0.0004"/></g></svg>'),
     ("viewbox-tiny", HEAD % 'width="100" height="100" viewBox="0 0 10000000 10000000"' + '<rect id="L" width="3000000" height="4000000" stroke="red" stroke-width="200000"/></svg>'),
